@@ -77,6 +77,7 @@ inductive PStmt where
   | elseifS (c : Expr) (body : List PStmt)
   | elseIf2 (c : Expr) (body : List PStmt)
   | ist (s : IStmt)
+  | enif (c : Expr) (body : List PStmt)
   deriving Inhabited
 
 instance : Inhabited Prog := ⟨.done⟩
@@ -91,10 +92,12 @@ partial def toProg : List PStmt → Prog
   | .elseifS c b :: r => .elseifS c (toProg b) (toProg r)
   | .elseIf2 c b :: r => .elseIf2 c (toProg b) (toProg r)
   | .ist s :: r => .istmt s (toProg r)
+  | .enif c b :: r => .enif c (toProg b) (toProg r)
 
 partial def hasI : List PStmt → Bool
   | [] => false
   | .ist _ :: _ => true
+  | .enif _ _ :: _ => true
   | .ifS _ b :: r | .elseS b :: r | .elseifS _ b :: r | .elseIf2 _ b :: r => hasI b || hasI r
   | _ :: r => hasI r
 
@@ -130,6 +133,7 @@ partial def parseStmts (h : IO.FS.Stream) (hist : Hist) (depth : Nat) : IO (Opti
     if hd == "}" || hd == "endprog" then break
     hist := hist.bump hd |>.bump s!"depth{depth}"
     if hd != "IF" && hd != "EI" && hd != "E2" then prevCond := none
+    if hd == "RG" || hd == "MW" then hist := hist.bump s!"clocked-at-depth{depth}"
     match hd with
     | "D" =>
       let (ty, k) := k.next
@@ -156,6 +160,26 @@ partial def parseStmts (h : IO.FS.Stream) (hist : Hist) (depth : Nat) : IO (Opti
       let (y, _) := k.next
       match parseOp o with
       | some o => out := out.push (.ist (.declCmp o x.toNat! y.toNat!))
+      | none => ok := false
+    | "RG" =>      -- RG <expr>             auto t = reg(e);
+      match parseExpr k with
+      | some (e, _) => out := out.push (.ist (.reg e))
+      | none => ok := false
+    | "MW" =>      -- MW <addr expr> <data expr>     Memory<UInt> mem(2^aw, w_b); mem[addr] = d;
+      match parseExpr k with
+      | some (a, k) =>
+        match parseExpr k with
+        | some (dd, _) => out := out.push (.ist (.memW a dd))
+        | none => ok := false
+      | none => ok := false
+    | "EN" =>      -- EN <expr> … }         ENIF (c) { … }
+      match parseExpr k with
+      | some (c, _) =>
+        let (b, hist') ← parseStmts h hist (depth + 1)
+        hist := hist'
+        match b with
+        | some b => out := out.push (.enif c b)
+        | none => ok := false
       | none => ok := false
     | "F" =>
       let (ty, k) := k.next
@@ -272,6 +296,7 @@ partial def loop (h : IO.FS.Stream) (d : D) (c : Case) : IO D := do
     let marks := k2.t.toList.drop k2.i
     let d := if marks.contains "alias" then { d with hist := d.hist.bump "pattern:alias-cache-key" } else d
     -- `intlit`: width-less variables (integer literals / zext / oext) with wider / narrower / equal re-assignments
+    let d := if marks.contains "enable" then { d with hist := d.hist.bump "pattern:enable-scopes" } else d
     let d := if marks.contains "intlit" then { d with hist := d.hist.bump "pattern:integer-literal-variables" } else d
     loop h { d with cases := d.cases + 1 } { id := id }
   | "ins" =>
@@ -332,21 +357,27 @@ partial def loop (h : IO.FS.Stream) (d : D) (c : Case) : IO D := do
       match splitBar (k.t.toList.drop 1) with
       | [ins, pre0, post0] =>
         -- `<core outputs> ; <integer variables>` (the second part only for programs with integer-literal variables)
-        let splitSemi (l : List String) : List String × List String :=
-          let (a, b) := l.span (· != ";")
-          (a, b.drop 1)
-        let (pre, preI) := splitSemi pre0
-        let (post, postI) := splitSemi post0
+        -- `<core outputs> ; <integer variables> ; <enable inputs of reg / memory write statements>` (2nd and 3rd part only for extended programs)
+        let splitSemi (l : List String) : List String × List String × List String :=
+          let (a, r) := l.span (· != ";")
+          let (b, r2) := (r.drop 1).span (· != ";")
+          (a, b, r2.drop 1)
+        let (pre, preI, preO) := splitSemi pre0
+        let (post, postI, postO) := splitSemi post0
         let ρ? := ins.mapM parseBits
         match ρ? with
         | none => loop h d c
         | some ρ =>
           let c := { c with anyOor := c.anyOor || (oorFlags ρ B.nodes).any id }
-          let spec : Option (List Val × List IVal) := if c.useX then runX p ρ [] none else (run p ρ none).map fun e => (e, [])
+          let spec : Option RS := if c.useX then runX p ⟨ρ, [], []⟩ true none else (run p ρ none).map fun e => ⟨e, [], []⟩
           let nTop := if pre == ["-"] then post.length else pre.length
           match spec with
           | none => loop h { d with oor := d.oor + 1 } { c with oorVals := c.oorVals + 1 }
-          | some (env, ienv) =>
+          | some rs =>
+            let env := rs.env
+            let ienv := rs.ienv
+            let specO := rs.obs.map fun b => if b then "1" else "0"
+            let modelO := (outputsObs ρ X).map fun b => if b then "1" else "0"
             let model := (outputs ρ B).map showBits
             let modelI := (outputsI ρ X).map fun kv => showBits kv.2
             let specS := env.map showBits
@@ -361,16 +392,16 @@ partial def loop (h : IO.FS.Stream) (d : D) (c : Case) : IO D := do
             let mut d := { d with vals := d.vals + 1, ops := d.ops + B.nodes.size + 1 }
             let mut c := { c with okVals := c.okVals + 1 }
             let inS := " ".intercalate ins
-            for (tag, impl, implI) in [("pre", pre, preI), ("post", post, postI)] do
+            for (tag, impl, implI, implO) in [("pre", pre, preI, preO), ("post", post, postI, postO)] do
               if impl == ["-"] then continue
-              if (impl != specS.take nTop || !intOk implI) && !c.reportedP then
+              if (impl != specS.take nTop || !intOk implI || implO != specO) && !c.reportedP then
                 -- classification for the replay file: postprocess() changed a value the un-postprocessed circuit had right
                 -- / no pre-simulation available (Node_Default) while the model agrees with the interpreter / the frontend itself
-                let preOk := pre != ["-"] && pre == specS.take nTop && intOk preI
+                let preOk := pre != ["-"] && pre == specS.take nTop && intOk preI && preO == specO
                 let sig := if tag == "post" && preOk then "postprocess-changed-value"
-                           else if tag == "post" && pre == ["-"] && model.take nTop == specS.take nTop && intOk (modelI.take nI) then "not-sequential-no-pre-simulation"  -- frontend or postprocess(): cannot be told apart without a pre-simulation
+                           else if tag == "post" && pre == ["-"] && model.take nTop == specS.take nTop && intOk (modelI.take nI) && modelO == specO then "not-sequential-no-pre-simulation"  -- frontend or postprocess(): cannot be told apart without a pre-simulation
                            else "frontend-not-sequential"
-                IO.println s!"PROPFAIL case={c.id} sig={sig} stage={tag} inputs=[{inS}] sequential=[{" ".intercalate specS} ; {" ".intercalate specI}] impl=[{" ".intercalate impl} ; {" ".intercalate implI}]"
+                IO.println s!"PROPFAIL case={c.id} sig={sig} stage={tag} inputs=[{inS}] sequential=[{" ".intercalate specS} ; {" ".intercalate specI} ; {" ".intercalate specO}] impl=[{" ".intercalate impl} ; {" ".intercalate implI} ; {" ".intercalate implO}]"
                 d := { d with propfails := d.propfails + 1 }
                 c := { c with reportedP := true }
               -- outputs whose model value depends on an out-of-range multiplexer are not compared with the model
@@ -378,12 +409,14 @@ partial def loop (h : IO.FS.Stream) (d : D) (c : Case) : IO D := do
               let tainted := (B.sigs.take nTop).map fun s => tv.getD s.driver false
               let taintedI := (X.ivars.take nI).map fun s => tv.getD s.driver false
               let hit := tainted.any id || taintedI.any id
-              let same := impl.length == nTop && implI.length == nI &&
+              let taintedO := X.obs.map fun p => tv.getD p false
+              let same := impl.length == nTop && implI.length == nI && implO.length == modelO.length &&
+                ((implO.zip modelO).zip taintedO).all (fun ((a, b), tnt) => tnt || a == b) &&
                 ((impl.zip (model.take nTop)).zip tainted).all (fun ((a, b), tnt) => tnt || a == b) &&
                 ((implI.zip (modelI.take nI)).zip taintedI).all (fun ((a, b), tnt) => tnt || a == b)
               if hit then d := { d with undefSkipped := d.undefSkipped + 1 }
               if !same && !c.reported then
-                IO.println s!"DIFF case={c.id} stage={tag} inputs=[{inS}] model=[{" ".intercalate model} ; {" ".intercalate modelI}] impl=[{" ".intercalate impl} ; {" ".intercalate implI}]"
+                IO.println s!"DIFF case={c.id} stage={tag} inputs=[{inS}] model=[{" ".intercalate model} ; {" ".intercalate modelI} ; {" ".intercalate modelO}] impl=[{" ".intercalate impl} ; {" ".intercalate implI} ; {" ".intercalate implO}]"
                 d := { d with diffs := d.diffs + 1 }
                 c := { c with reported := true }
             loop h d c
